@@ -550,7 +550,13 @@ impl World {
                 self.op(Op::StartBuilder { placement: squares_to_placement(&pos.sq), stm: pos.stm, castle, ep_file, order })
             }
         } else {
-            // alternate between the two standard spellings of the en-passant field
+            // alternate between the two standard spellings of the en-passant field; a standard writer keeps real
+            // move counters, which can be large (the library ignores them, but it has to read them)
+            let mut pos = pos;
+            if name != "initial" && self.rng.chance(1, 3) {
+                pos.halfmove = *self.rng.pick(&[0u32, 1, 49, 99, 100, 101, 150, 255, 256, 300, 1000]);
+                pos.fullmove = *self.rng.pick(&[1u32, 2, 40, 127, 128, 255, 256, 300, 1000, 5949, 65535, 65536]);
+            }
             let text = if self.rng.chance(1, 2) { pos.fen() } else { pos.fen_ep_if_beside() };
             self.op(Op::StartFen { text })
         }
@@ -1290,7 +1296,11 @@ impl World {
                 // E-BADSIZE: the constructor must panic exactly for non-powers of two
                 let k = self.rng.range(1, 16);
                 let j = self.rng.range(0, 15);
-                let bad = *self.rng.pick(&[0u64, 3, 5, 6, 7, 12, (1 << k) + 1, (1u64 << k).wrapping_sub(1).max(3), (1 << k) + (1 << j) + if k == j { 1 } else { 0 }]);
+                let bad = *self.rng.pick(&[
+                    0u64, 3, 5, 6, 7, 12, (1 << k) + 1, (1u64 << k).wrapping_sub(1).max(3), (1 << k) + (1 << j) + if k == j { 1 } else { 0 },
+                    // far beyond any memory: must be refused before anything is allocated
+                    (1 << 48) + 1, 3 << 56, u64::MAX, (1 << 62) + 8, (1 << 45) + (1 << 44),
+                ]);
                 self.eop(c, task, EOp::TableNew { size: bad })?;
             }
             let size = 1u64 << self.cfg.table_log2;
@@ -1340,7 +1350,7 @@ impl World {
                 self.used_keys[i] = alias_key;
             }
             let here_alias = if self.rng.chance(1, 2) { 0 } else { (self.rng.next_u64() >> 8) << self.cfg.table_log2.max(1) };
-            let val = *self.rng.pick(&[0u8, 0, 0, 0, 1, 1, 2]);
+            let val = *self.rng.pick(&[0u8, 0, 0, 0, 1, 1, 2, 3, 3]);
             match self.rng.below(8) {
                 0 | 1 => self.eop(c, task, EOp::TableGetHere { alias: here_alias })?,
                 2 => self.eop(c, task, EOp::TableAddHere { alias: here_alias })?,
@@ -1601,7 +1611,7 @@ impl World {
                     } else {
                         self.noise()
                     };
-                    let text = match self.rng.below(6) {
+                    let text = match self.rng.below(7) {
                         0 => base.clone(),
                         1 => {
                             // trailing characters the grammar has no place for
@@ -1640,6 +1650,56 @@ impl World {
                                     s.text()
                                 }
                                 None => base.clone(),
+                            }
+                        }
+                        4 => {
+                            // the components of a correct spelling in a wrong order, doubled or dropped
+                            match San::parse(&base) {
+                                Some(sp) if sp.castle.is_none() => {
+                                    let mut parts: Vec<String> = vec![];
+                                    if sp.piece != Kind::P {
+                                        parts.push(kind_letter_upper(sp.piece).to_string());
+                                    }
+                                    if let Some(f) = sp.file_hint {
+                                        parts.push(((b'a' + f as u8) as char).to_string());
+                                    }
+                                    if let Some(r) = sp.rank_hint {
+                                        parts.push(((b'1' + r as u8) as char).to_string());
+                                    }
+                                    parts.push("x".to_string());
+                                    parts.push(sq_name(sp.dest));
+                                    if let Some(k) = sp.promo {
+                                        parts.push(kind_letter_upper(k).to_string());
+                                    }
+                                    parts.push(if self.rng.chance(1, 2) { "+".into() } else { "#".into() });
+                                    if self.rng.chance(1, 3) {
+                                        parts.push(" e.p.".to_string());
+                                    }
+                                    match self.rng.below(4) {
+                                        0 => {
+                                            let i = self.rng.usize(parts.len());
+                                            let j = self.rng.usize(parts.len());
+                                            parts.swap(i, j);
+                                        }
+                                        1 => {
+                                            let i = self.rng.usize(parts.len());
+                                            let dup = parts[i].clone();
+                                            parts.insert(i, dup);
+                                        }
+                                        2 => {
+                                            let i = self.rng.usize(parts.len());
+                                            let moved = parts.remove(i);
+                                            let j = self.rng.usize(parts.len() + 1);
+                                            parts.insert(j, moved);
+                                        }
+                                        _ => {
+                                            let i = self.rng.usize(parts.len());
+                                            parts.remove(i);
+                                        }
+                                    }
+                                    parts.concat()
+                                }
+                                _ => self.mutate_text(&base),
                             }
                         }
                         _ => self.mutate_text(&base),
@@ -1682,6 +1742,17 @@ impl World {
                             } else {
                                 self.op(Op::DecodeUci { text: t })?
                             }
+                        }
+                        7 if self.rng.chance(1, 2) => {
+                            // over-long texts whose length sits around a power of two (narrowing casts of the length)
+                            let total = *self.rng.pick(&[255usize, 256, 257, 260, 261, 262, 511, 512, 517, 773, 1029, 65535, 65536, 65541]);
+                            let tail = *self.rng.pick(&["q", "r", "n", "b", "Q", "1", " "]);
+                            let mut t = base.clone();
+                            while t.len() + tail.len() < total {
+                                t.push(*self.rng.pick(&['x', '-', ' ', '0', 'z', '+']));
+                            }
+                            t.push_str(tail);
+                            self.op(Op::DecodeUci { text: t })?
                         }
                         0 | 1 | 2 | 3 => self.op(Op::DecodeUci { text: base })?,
                         4 => {
